@@ -356,18 +356,38 @@ Inductive verdict :=
 | VUnmodelledEffect   (* no row in the table and the generic call had an effect *)
 | VMetRefused.        (* requirement met, yet the call was refused by a witness guard (or returned false) *)
 
+(** Methods whose source returns silently, BEFORE any witness test, when
+    there is nothing to do; for them an unmet requirement may end in a plain
+    HALT (still without any effect).  Every other method must fault or return
+    [false]. *)
+Definition silent_noops : list mkey := [
+  (KContainer, "delete", 3);       (* container/contract.go:450-453: missing (or already deleted) container *)
+  (KNeoFS, "onNEP17Payment", 3)    (* neofs/contract.go:233-236: data is the ignore-deposit marker *)
+].
+Definition is_silent_noop (k : mkey) : bool := existsb (mkey_eqb k) silent_noops.
+
+(** Methods that report a failed witness test by returning [false]
+    ([balance.transfer], [nns.transfer]); for the other Boolean methods
+    ([nns.register] of a live name) [false] is an ordinary answer. *)
+Definition refuses_with_false : list mkey := [
+  (KBalance, "transfer", 4);       (* balance/contract.go:393-396 *)
+  (KNNS, "transfer", 3)            (* nns/contract.go:262-264 *)
+].
+Definition is_refusing_false (k : mkey) : bool := existsb (mkey_eqb k) refuses_with_false.
+
 Definition check_case (x : case) : option verdict :=
   match required (cs_key x) with
   | None => if cs_effect x then Some VUnmodelledEffect else None
   | Some r =>
       if eval_req (cs_ctx x) (cs_args x) r then
         match cs_class x with
-        | OFaultGuard | OFalse => Some VMetRefused
+        | OFaultGuard => Some VMetRefused
+        | OFalse => if is_refusing_false (cs_key x) then Some VMetRefused else None
         | _ => None
         end
       else if cs_effect x then Some VUnmetEffect
       else match cs_class x with
-           | OHaltOther => Some VUnmetNotRefused
+           | OHaltOther => if is_silent_noop (cs_key x) then None else Some VUnmetNotRefused
            | _ => None
            end
   end.
